@@ -203,6 +203,27 @@ def run(ctx):
             ctx.spec_fail('convert|item-assignment', 'convert(t)[field] = fn: the view, or another convert view created afterwards, is not what was asked for',
                           {'table1': repr(T1), 'table2': repr(T2), 'view1': o1, 'view2': o2, 'view3': o3})
 
+    # ---- several converters in one call (dict and positional list), every converter form: each field gets its own converter
+    FORMS = [('upper', lambda v: v.upper()), ('lower', lambda v: v.lower()), ('strip', lambda v: v.strip()),
+             (('replace', 'a', 'Z'), lambda v: v.replace('a', 'Z')), (['ljust', 4, '.'], lambda v: v.ljust(4, '.')),
+             ({'a': 'AA', ' b ': 'BB'}, lambda v: {'a': 'AA', ' b ': 'BB'}.get(v, v)), (len, len), (None, lambda v: v)]
+    STR = ['a', 'Ab', ' b ', 'aa', 'Ba ']
+    for ci in range(200 if ctx.thorough() else 40):
+        w = rng.choice([2, 3, 3, 4])
+        hdr = ['f%d' % j for j in range(w)]
+        T = [hdr] + [[rng.choice(STR) for _ in range(w)] for _ in range(rng.choice([1, 2, 3]))]
+        picks = [rng.choice(FORMS) for _ in range(w)]
+        want = util.show_out([tuple(hdr)] + [tuple(f(v) for (c, f), v in zip(picks, r)) for r in T[1:]])
+        as_dict = {h: c for h, (c, f) in zip(hdr, picks) if c is not None}
+        as_list = [c if c is not None else (lambda v: v) for c, f in picks]
+        for form, thunk in (('dict', lambda: etl.convert(T, as_dict)), ('list', lambda: etl.convert(T, as_list))):
+            got = util.run_show(thunk)
+            ctx.case(('convert-many', form, repr(T), repr([repr(c) for c, f in picks])))
+            ctx.count('op:convert-many(%s)' % form)
+            if got != want:
+                ctx.spec_fail('convert|several-converters|%s' % form, 'convert with several converters in one call: some field was not converted by its own converter',
+                              {'table': repr(T), 'converters': repr([c for c, f in picks]), 'form': form, 'real': got, 'want': want})
+
 
 def replay(d):
     print('replay case:', d.get('case'))
